@@ -25,6 +25,7 @@ TraitsHash == <<"PartialEq", "Hash">>
 TraitsDbg == <<"Debug">>
 TraitsClone == <<"Clone">>
 TraitsDeref == <<"Deref", "DerefMut">>
+TraitsInto == <<"Into">>
 
 Positions == {1, 5, 10, N}
 TreatOf(key) == IF key = "clone" THEN {Own, Method} ELSE Treatments
@@ -50,8 +51,20 @@ DerefConfigs ==
                           [DefVariant EXCEPT !.style = s, !.fields = DerefFields(p, q)] >>] :
       k \in {"struct", "enum"}, s \in {"tuple", "named"}, p \in {1, 10, 11, N}, q \in {1, 10, 11, N} }
 
+\* Into markers for two targets at independent positions of a 12-field variant
+IntoFields(p, q, m) ==
+  [i \in 1..N |-> [DefField EXCEPT !.into = (IF i = p /\ i = q THEN <<[t |-> "A", m |-> m], [t |-> "B", m |-> FALSE]>>
+                                              ELSE IF i = p THEN <<[t |-> "A", m |-> m]>>
+                                              ELSE IF i = q THEN <<[t |-> "B", m |-> FALSE]>> ELSE <<>>)]]
+IntoConfigs ==
+  { [kind |-> k, opts |-> [Opts EXCEPT !.targets = <<"A", "B">>],
+     variants |-> IF k = "struct" THEN << [DefVariant EXCEPT !.style = s, !.fields = IntoFields(p, q, m)] >>
+                  ELSE << [DefVariant EXCEPT !.style = "tuple", !.fields = <<DefField>>],
+                          [DefVariant EXCEPT !.style = s, !.fields = IntoFields(p, q, m)] >>] :
+      k \in {"struct", "enum"}, s \in {"tuple", "named"}, p \in {1, 10, N}, q \in {1, 11, N}, m \in BOOLEAN }
+
 WideConfigs ==
-  IF Key = "deref" THEN DerefConfigs ELSE
+  IF Key = "deref" THEN DerefConfigs ELSE IF Key = "into" THEN IntoConfigs ELSE
   { [kind |-> k, opts |-> Opts,
      variants |-> IF k = "struct" THEN << [DefVariant EXCEPT !.style = s, !.fields = Fields(p, t, q, u)] >>
                   ELSE << [DefVariant EXCEPT !.style = "unit"], [DefVariant EXCEPT !.style = s, !.fields = Fields(p, t, q, u)] >>] :
